@@ -42,6 +42,7 @@ DE = "dataiter/deco.py"
 
 V = "violation"
 S = "silent"
+NV = "no-violation"     # whole-method rewrites: silent, or an honest ANALYSIS-ERROR -- never a VIOLATION
 
 # (name, file, old, new, expect, rule-or-None)
 TABLE = {
@@ -280,11 +281,14 @@ def _seed_overlays(pid, root):
 
 
 def _refactor_overlays(root):
-    """Overlays from the committed behaviour-preserving refactorings: every check must stay silent."""
+    """Overlays from the committed behaviour-preserving refactorings: every check must stay silent (refactors/), or at
+    least never report a violation (refactors_large/: whole methods rewritten, where an anchor may honestly vanish)."""
     out = []
     here = os.path.dirname(os.path.dirname(os.path.abspath(__file__)))
-    for patch in sorted(glob.glob(os.path.join(here, "refactors", "*", "patch.diff"))):
-        name = "refactor:" + os.path.basename(os.path.dirname(patch))
+    for patch in sorted(glob.glob(os.path.join(here, "refactors", "*", "patch.diff")) +
+                        glob.glob(os.path.join(here, "refactors_large", "*", "patch.diff"))):
+        large = os.path.basename(os.path.dirname(os.path.dirname(patch))) == "refactors_large"
+        name = ("rewrite:" if large else "refactor:") + os.path.basename(os.path.dirname(patch))
         tmp = tempfile.mkdtemp(prefix="sa-variant-")
         try:
             os.makedirs(os.path.join(tmp, "dataiter"))
@@ -300,7 +304,7 @@ def _refactor_overlays(root):
                 src = open(f).read()
                 if src != open(os.path.join(root, rel)).read():
                     ov[rel] = src
-            out.append((name, ov, S))
+            out.append((name, ov, NV if large else S))
         finally:
             shutil.rmtree(tmp, ignore_errors=True)
     return out
@@ -314,6 +318,8 @@ def _run_variant(args):
         mod = importlib.import_module(f"sa.props.{pid}")
         mod.check(ctx)
     except AnalysisError as e:
+        if expect == NV:
+            return name, expect, "silent", "analysis-error (accepted for whole-method rewrites): " + str(e)[:120]
         return name, expect, "analysis-error", str(e)[:200]
     known = report.load_known()
     bad = [o for o in ctx.obligations if o.verdict == report.VIOLATED and not report.match_known(o, known)
